@@ -314,12 +314,22 @@ def enc_emit(enabled_idx, lines, raw, code_idx):
     return " ".join(parts)
 
 
-def dec_emit(s, names):
+def reported_col(lines, lineno, col):
+    """show_error (since 2913974) reports the column in characters: it treats the node's col_offset
+    as a UTF-8 byte offset into the line and converts it (also for the _FakeNode columns of the final
+    passes, which already are character indexes).  The model carries the offset through unchanged;
+    the conversion is applied here to the model's output."""
+    if 1 <= lineno <= len(lines):
+        return len((lines[lineno - 1] + "\n").encode("utf-8")[:col].decode("utf-8", "ignore"))
+    return col
+
+
+def dec_emit(s, names, lines=None):
     left = s.split("|")[0].split()
     out = []
     for t in left:
         c, l, col = t.split(":")
-        out.append([names[int(c)], int(l), int(col)])
+        out.append([names[int(c)], int(l), int(col) if lines is None else reported_col(lines, int(l), int(col))])
     return out
 
 
@@ -835,7 +845,7 @@ def run(tier: str, replay: str | None = None):
             outs = lib.ocaml_run(exe, model_lines)
             for (tag, lines, cfg, r), o in zip(model_meta, outs):
                 n_model += 1
-                m = dec_emit(o, static_names)
+                m = dec_emit(o, static_names, lines)
                 if tag[0] == "special":
                     special_model_agrees[tag[1]] = (m == r["out"])
                 if m != r["out"]:
